@@ -258,6 +258,29 @@ impl World {
             .iter()
             .map(|c| Val::I(self.ctrs.get(c).map(|x| x.load(Ordering::Relaxed)).unwrap_or(0) as i128))
             .collect();
+        let mut rs = Vec::new();
+        for a in addrs {
+            let mut per = Vec::new();
+            for f in &self.families {
+                // every prefix of the family, with the RS-local selection if any
+                let sel: HashMap<u64, Val> = self
+                    .table
+                    .destinations(TableQuery::RsLocal(addr_of(*a)), *f, vec![], false)
+                    .map(|d| {
+                        let p = &d.paths[0];
+                        (
+                            net_of(&d.net),
+                            Val::L(vec![Val::n(net_of(&d.net)), self.src_tok(&p.source), self.attr_tok(&p.attr)]),
+                        )
+                    })
+                    .collect();
+                for d in self.table.destinations(TableQuery::Global, *f, vec![], true) {
+                    let n = net_of(&d.net);
+                    per.push(sel.get(&n).cloned().unwrap_or(Val::L(vec![Val::n(n)])));
+                }
+            }
+            rs.push(Val::L(vec![Val::n(*a), Val::L(per)]));
+        }
         Val::L(vec![
             Val::L(loc),
             Val::L(dests),
@@ -265,6 +288,7 @@ impl World {
             Val::L(stats),
             Val::L(cv),
             Val::b(false),
+            Val::L(rs),
         ])
     }
 }
